@@ -684,9 +684,12 @@ func (u *URI) RequestURI() []byte {
 		dst = bytesconv.AppendQuotedPath(u.requestURI[:0], u.Path())
 	}
 	// queryArgs is only meaningful while it reflects queryString (SetQueryString invalidates it)
-	if u.parsedQueryArgs && u.queryArgs.Len() > 0 {
-		dst = append(dst, '?')
-		dst = u.queryArgs.AppendBytes(dst)
+	// and once it has been parsed it is the source of truth, also when every argument was deleted
+	if u.parsedQueryArgs {
+		if u.queryArgs.Len() > 0 {
+			dst = append(dst, '?')
+			dst = u.queryArgs.AppendBytes(dst)
+		}
 	} else if len(u.queryString) > 0 {
 		dst = append(dst, '?')
 		dst = append(dst, u.queryString...)
